@@ -126,6 +126,36 @@ func (o *obsv) wealth() *big.Int {
 	return t
 }
 
+type monSnap struct {
+	ledger  map[string]*big.Int
+	acctSet map[string]int
+	lastOp  map[string]string
+	quirk   map[string]bool
+}
+
+func (m *monitor) takeSnap() {
+	sn := &monSnap{ledger: map[string]*big.Int{}, acctSet: map[string]int{}, lastOp: map[string]string{}, quirk: map[string]bool{}}
+	for k, v := range m.ledger {
+		sn.ledger[k] = new(big.Int).Set(v)
+	}
+	for k, v := range m.acctSet {
+		sn.acctSet[k] = v
+	}
+	for k, v := range m.lastOp {
+		sn.lastOp[k] = v
+	}
+	for k, v := range m.quirk {
+		sn.quirk[k] = v
+	}
+	m.snap = sn
+}
+
+type retainedRec struct {
+	live *types.Miner
+	copy rec
+	at   string
+}
+
 type viol struct {
 	sev    int
 	Key    string   `json:"key"`
@@ -141,6 +171,15 @@ type monitor struct {
 	crafted  bool                // universe contains id' = Sha256^k(id)
 	blockNo  int                 // number of block ends so far in this episode
 	acctSet  map[string]int      // hex id -> block in which its account was last set (apply/chacc accepted)
+	touched  map[string]bool     // ids whose record was created / deleted / re-accounted / re-staked by an accepted op of the CURRENT block
+	accepted map[string]bool     // ids with an accepted application in this episode
+	snap     *monSnap            // ledger-side bookkeeping as of the last block end (restored by `rewind`)
+	pkStale  map[string]bool     // ids whose cached key was written by a block that was then discarded
+	blockReg map[string]bool     // ids with an accepted application in the current block
+	quirk    map[string]bool     // ids sitting aborted exactly on the minimum since an accepted add-stake put them there
+	lastOp   map[string]string   // last accepted op kind per id
+	pkShadow map[string][]byte   // public key of the last accepted application per id (independent of the code's answers)
+	retained []retainedRec       // records handed out earlier, with deep copies taken at that time
 	everReg  map[string]bool     // ids with an accepted application in this PROCESS (the key cache outlives resets)
 	unreal   bool                // episode leaves the documented hypotheses: a balance >= 2^53 tokens or an account that is not 20 bytes
 	notes    map[string]*viol
@@ -151,7 +190,8 @@ type monitor struct {
 }
 
 func newMonitor(ip *interp) *monitor {
-	return &monitor{ip: ip, found: map[string]*viol{}, notes: map[string]*viol{}, checksBy: map[string]int{}, everReg: map[string]bool{}}
+	return &monitor{ip: ip, found: map[string]*viol{}, notes: map[string]*viol{}, checksBy: map[string]int{}, everReg: map[string]bool{},
+		pkShadow: map[string][]byte{}, touched: map[string]bool{}, accepted: map[string]bool{}, lastOp: map[string]string{}, quirk: map[string]bool{}}
 }
 
 // report keeps, per class key, the most telling witness: clause severity first
@@ -174,6 +214,9 @@ func (m *monitor) report(key, desc string) {
 		return
 	}
 	m.found[key] = &viol{sev: sev, Key: key, Desc: desc, Script: append([]string{}, m.script...)}
+	// printed when found (a time-boxed or crashing run keeps what it had); the plugin takes the last line per key
+	b, _ := json.Marshal(m.found[key])
+	fmt.Println("VIOL " + string(b))
 }
 
 func craftedUniverse(ids [][]byte) bool {
@@ -192,16 +235,47 @@ func craftedUniverse(ids [][]byte) bool {
 }
 
 // classify a violation of clause `clause` by the circumstances that produce it.
-func (m *monitor) classify(clause string, lostRefund bool, allowStale bool) string {
+// collided: the key-family collision has materialised for `id` (hex) — `id` and an id related to it by
+// Sha256^k (either direction) have BOTH had an accepted application in this episode. id == "" asks whether any
+// such pair exists (for clauses that are not about one miner: conservation, totals).
+func (m *monitor) collided(id string) bool {
+	if !m.crafted {
+		return false
+	}
+	ids := m.ip.w.ids
+	for _, a := range ids {
+		c := a
+		for k := 0; k < 3; k++ {
+			c = common.Sha256(c)
+			for _, b := range ids {
+				if bytes.Equal(b, c) && m.accepted[hx.Hex(a)] && m.accepted[hx.Hex(b)] {
+					if id == "" || id == hx.Hex(a) || id == hx.Hex(b) {
+						return true
+					}
+				}
+			}
+		}
+	}
+	return false
+}
+
+// classify a violation of clause `clause` about miner `id` ("" = not about one miner) by the circumstances that
+// produce it. Each recorded class is kept narrow: a collision must have materialised for that miner, the stale
+// iterator only explains disagreements about miners the current block itself touched.
+func (m *monitor) classifyID(clause, id string, lostRefund bool, allowStale bool) string {
 	switch {
-	case m.crafted:
+	case m.collided(id):
 		return "id-hash-collision"
 	case lostRefund:
 		return "refund-lost-second-account"
-	case allowStale && m.dirty:
+	case allowStale && m.dirty && (id == "" && len(m.touched) > 0 || m.touched[id]):
 		return "stale-iterator-in-block"
 	}
 	return clause
+}
+
+func (m *monitor) classify(clause string, lostRefund bool, allowStale bool) string {
+	return m.classifyID(clause, "", lostRefund, allowStale)
 }
 
 // dupFromStale: two records share an account (can only arise through the stale in-block lookup when
@@ -228,11 +302,9 @@ func (m *monitor) run(line string) string {
 		isTx = true
 		before = m.prev
 	}
-	var stakeBefore uint64
 	lost := false
 	if isTx && t[0] == "refund" && before != nil {
 		if r := before.byID[t[2]]; r != nil {
-			stakeBefore = r.stake
 			// will this refund hit an existing per-height list that lacks the account?
 			if l, ok := before.pendKey[w.height+refundDelay]; ok {
 				has := false
@@ -254,6 +326,14 @@ func (m *monitor) run(line string) string {
 		m.script = []string{line}
 		m.ledger = map[string]*big.Int{}
 		m.acctSet = map[string]int{}
+		m.touched = map[string]bool{}
+		m.accepted = map[string]bool{}
+		m.lastOp = map[string]string{}
+		m.quirk = map[string]bool{}
+		m.pkStale = map[string]bool{}
+		m.blockReg = map[string]bool{}
+		m.takeSnap()
+		m.retained = nil
 		m.blockNo = 0
 		m.dirty = false
 		m.prev = nil
@@ -277,7 +357,20 @@ func (m *monitor) run(line string) string {
 		}
 		m.prev = w.observe()
 		return res
-	case "dump":
+	case "dump", "config":
+		return res
+	case "rewind":
+		// the ledger goes back to the block start; the key cache does not
+		sn := m.snap
+		m.ledger, m.acctSet, m.lastOp, m.quirk = sn.ledger, sn.acctSet, sn.lastOp, sn.quirk
+		m.takeSnap()
+		for k := range m.blockReg {
+			m.pkStale[k] = true
+		}
+		m.blockReg = map[string]bool{}
+		m.touched = map[string]bool{}
+		m.dirty = false
+		m.prev = w.observe()
 		return res
 	}
 	if strings.HasPrefix(res, "PANIC") {
@@ -299,6 +392,16 @@ func (m *monitor) run(line string) string {
 		}
 		if t[0] == "apply" {
 			m.everReg[t[2]] = true
+			m.accepted[t[2]] = true
+			m.blockReg[t[2]] = true
+			pkb, _ := hx.UnHex(t[6])
+			m.pkShadow[t[2]] = pkb
+		}
+		if t[0] != "bad" {
+			m.touched[t[2]] = true
+			if t[0] != "chacc" {
+				m.lastOp[t[2]] = t[0] // last accepted stake-changing op
+			}
 		}
 		switch t[0] {
 		case "apply":
@@ -307,8 +410,8 @@ func (m *monitor) run(line string) string {
 			led(t[2]).Add(led(t[2]), u(t[3]))
 		case "refund":
 			amt := u(t[3])
-			if t[3] == maxU64 {
-				amt = new(big.Int).SetUint64(stakeBefore)
+			if amt.Cmp(u(maxU64)) == 0 {
+				amt = new(big.Int).Set(led(t[2])) // "everything" = what the ledger says is there, not what the code reports
 			}
 			led(t[2]).Sub(led(t[2]), amt)
 		}
@@ -316,6 +419,12 @@ func (m *monitor) run(line string) string {
 	if t[0] == "endblock" {
 		m.dirty = false
 		m.blockNo++
+		m.touched = map[string]bool{}
+		for k := range m.blockReg {
+			delete(m.pkStale, k) // the application is on the chain now: the cached key is the registry's
+		}
+		m.blockReg = map[string]bool{}
+		m.takeSnap()
 	}
 	if isVM {
 		// the opcodes change stakes outside the transaction ledger: take the observed stakes as the new
@@ -380,7 +489,7 @@ func (m *monitor) run(line string) string {
 			st = r.stake
 		}
 		if led(k).Cmp(new(big.Int).SetUint64(st)) != 0 {
-			m.report(m.classify("stake-accounting", false, false), fmt.Sprintf("after %s: miner %s stake %d, applied+added-refunded %s", line, k, st, led(k)))
+			m.report(m.classifyID("stake-accounting", k, false, false), fmt.Sprintf("after %s: miner %s stake %d, applied+added-refunded %s", line, k, st, led(k)))
 		}
 	}
 	// O4
@@ -396,7 +505,7 @@ func (m *monitor) run(line string) string {
 					key = "stale-iterator-in-block"
 				}
 			}
-			if m.crafted {
+			if m.collided(k) || m.collided(other) {
 				key = "id-hash-collision"
 			}
 			m.report(key, fmt.Sprintf("after %s: account %s controls miners %s and %s", line, a, other, k))
@@ -415,13 +524,13 @@ func (m *monitor) run(line string) string {
 	for k, r := range o.byID {
 		ir, ok := iterBy[k]
 		if !ok || ir.stake != r.stake || ir.status != r.status || !bytes.Equal(ir.account, r.account) || ir.typ != r.typ || ir.applyH != r.applyH {
-			m.report(m.classify("lookup-disagree", false, true), fmt.Sprintf("after %s: miner %s by id %+v, by iterator present=%v %+v", line, k, *r, ok, ir))
+			m.report(m.classifyID("lookup-disagree", k, false, true), fmt.Sprintf("after %s: miner %s by id %+v, by iterator present=%v %+v", line, k, *r, ok, ir))
 		}
 		got := o.byAcct[hx.Hex(r.account)]
 		if got == nil {
-			m.report(m.classify("lookup-disagree", false, true), fmt.Sprintf("after %s: miner %s has account %s but GetMinerIdByAccount finds none", line, k, hx.Hex(r.account)))
+			m.report(m.classifyID("lookup-disagree", k, false, true), fmt.Sprintf("after %s: miner %s has account %s but GetMinerIdByAccount finds none", line, k, hx.Hex(r.account)))
 		} else if gr := o.byID[hx.Hex(got)]; gr == nil || !bytes.Equal(gr.account, r.account) {
-			m.report(m.classify("lookup-disagree", false, true), fmt.Sprintf("after %s: GetMinerIdByAccount(%s) = %s whose record does not carry that account", line, hx.Hex(r.account), hx.Hex(got)))
+			m.report(m.classifyID("lookup-disagree", k, false, true), fmt.Sprintf("after %s: GetMinerIdByAccount(%s) = %s whose record does not carry that account", line, hx.Hex(r.account), hx.Hex(got)))
 		}
 		if r.typ == common.MinerTypeProposer && r.status == common.MinerStatusNormal {
 			sum += r.stake
@@ -430,7 +539,54 @@ func (m *monitor) run(line string) string {
 	}
 	for k := range iterBy {
 		if o.byID[k] == nil && inUniverse(w.ids, k) {
-			m.report(m.classify("lookup-disagree", false, true), fmt.Sprintf("after %s: iterator yields miner %s that GetMiner does not find", line, k))
+			m.report(m.classifyID("lookup-disagree", k, false, true), fmt.Sprintf("after %s: iterator yields miner %s that GetMiner does not find", line, k))
+		}
+	}
+	// O10 (retention) records handed out earlier are not modified by later calls; reads are idempotent
+	m.checksBy["O10"]++
+	for _, rr := range m.retained {
+		now := rec{rr.live.PublicKey, rr.live.Id, rr.live.Type, rr.live.Stake, rr.live.Status, rr.live.ApplyHeight, rr.live.Account}
+		if !bytes.Equal(now.id, rr.copy.id) || !bytes.Equal(now.account, rr.copy.account) || !bytes.Equal(now.pubkey, rr.copy.pubkey) ||
+			now.stake != rr.copy.stake || now.status != rr.copy.status || now.typ != rr.copy.typ || now.applyH != rr.copy.applyH {
+			m.report("returned-record-mutated-later", fmt.Sprintf("after %s: the record returned by GetMiner at `%s` changed from %+v to %+v", line, rr.at, rr.copy, now))
+		}
+	}
+	if len(m.retained) > 24 {
+		m.retained = m.retained[len(m.retained)-24:]
+	}
+	for _, id := range w.ids {
+		if mr := service.MinerManagerImpl.GetMiner(id, w.adb); mr != nil {
+			cp := rec{append([]byte{}, mr.PublicKey...), append([]byte{}, mr.Id...), mr.Type, mr.Stake, mr.Status, mr.ApplyHeight, append([]byte{}, mr.Account...)}
+			m.retained = append(m.retained, retainedRec{live: mr, copy: cp, at: line})
+		}
+	}
+	if d1, d2 := w.dump(), w.dump(); d1 != d2 {
+		m.report("reads-not-idempotent", fmt.Sprintf("after %s: two consecutive full observations differ", line))
+	}
+	// O11 the consensus readers (consensus/access) answer on every committed state
+	m.checksBy["O11"]++
+	if x := hx.Guard(func() string { return w.readerStr() }); strings.HasPrefix(x, "PANIC") {
+		key := "reader-panic"
+		// the readers look at the last COMMITTED state: any id of this episode with an accepted application may be in it
+		for k := range m.accepted {
+			raw, _ := hx.UnHex(k)
+			if len(bytes.TrimLeft(raw, "\x00")) > 32 {
+				key = "reader-panics-on-long-id"
+			}
+		}
+		m.report(key, fmt.Sprintf("after %s: MinerPoolReader.GetCandidateMiners panics: %s", line, x))
+	} else if t[0] == "endblock" {
+		// right after a block end the committed state is the live one: the candidates the consensus layer is given must
+		// be exactly the registered validators that are not aborted and were applied before this height
+		want := []string{}
+		for _, r := range o.byID {
+			if r.typ == common.MinerTypeValidator && r.status != common.MinerStatusAbort && r.applyH < w.height {
+				want = append(want, fmt.Sprintf("%d/%d/%d", r.stake, r.applyH, r.typ))
+			}
+		}
+		sort.Strings(want)
+		if got := strings.SplitN(x, "|", 2)[0]; got != strings.Join(want, ",") {
+			m.report(m.classify("reader-candidates-disagree", false, false), fmt.Sprintf("after %s: GetCandidateMiners(%d) = [%s], registered eligible validators [%s]", line, w.height, got, strings.Join(want, ",")))
 		}
 	}
 	// O7 status is a function of the stake: what a fresh application of the same stake would give
@@ -450,12 +606,18 @@ func (m *monitor) run(line string) string {
 			sumByStake += r.stake
 			cntByStake++
 		}
+		if r.stake != min || r.status != common.MinerStatusAbort {
+			delete(m.quirk, k)
+		}
 		if r.status != want {
 			key := "status-not-function-of-stake"
-			if r.stake == min && r.status == common.MinerStatusAbort {
-				key = "reactivation-needs-more-than-minimum" // AddStake re-activates with `>`, AddMiner accepts `>=`
+			// AddStake re-activates with `>`, AddMiner accepts `>=`: the recorded class is exactly "an accepted add-stake
+			// landed on the minimum and the miner has stayed there, aborted, since"
+			if r.stake == min && r.status == common.MinerStatusAbort && (m.lastOp[k] == "add" || m.quirk[k]) {
+				m.quirk[k] = true
+				key = "reactivation-needs-more-than-minimum"
 			}
-			if m.crafted {
+			if m.collided(k) {
 				key = "id-hash-collision"
 			}
 			m.report(key, fmt.Sprintf("after %s: miner %s type %d has stake %d (minimum %d) and status %d; a fresh application with that stake has status %d; election total/count %d/%d, by stake %d/%d",
@@ -465,9 +627,13 @@ func (m *monitor) run(line string) string {
 	// O8/O9 the public-key side store agrees with the registry
 	m.checksBy["O8"]++
 	for k, r := range o.byID {
-		if c, ok := o.cached[k]; !ok || !bytes.Equal(c, r.pubkey) {
+		want, known := m.pkShadow[k]
+		if c, ok := o.cached[k]; !ok || !bytes.Equal(c, r.pubkey) || (known && !m.collided(k) && !bytes.Equal(c, want)) {
 			key := "pubkey-cache-disagrees"
-			if m.crafted {
+			if m.pkStale[k] {
+				key = "pkcache-keeps-discarded-block"
+			}
+			if m.collided(k) {
 				key = "id-hash-collision"
 			}
 			m.report(key, fmt.Sprintf("after %s: GetPubkey(%s) = %s (cached=%v) but the registry record has public key %s", line, k, hx.Hex(c), ok, hx.Hex(r.pubkey)))
@@ -500,7 +666,7 @@ func witnesses() map[string][]string {
 	a1, a2 := a20(0xa1), a20(0xa2)
 	hid := hx.Hex(common.Sha256([]byte{0x11}))
 	pre := func(ids string) []string {
-		return []string{"reset 100", "uni " + ids + " " + a1 + "," + a2 + " " + a1 + "," + a2,
+		return []string{"config dev", "reset 100", "uni " + ids + " " + a1 + "," + a2 + " " + a1 + "," + a2,
 			"bal " + a1 + " 100000" + e18, "bal " + a2 + " 100000" + e18}
 	}
 	return map[string][]string{
@@ -513,6 +679,11 @@ func witnesses() map[string][]string {
 			"vmunstake "+a1+" "+a2+" 1500000000000000000", "vmunstake "+a1+" "+a2+" 900000000000000000", "endblock 102"),
 		"reactivation-needs-more-than-minimum": append(pre("11"),
 			"apply "+a1+" 11 1 2000 - 01 01", "endblock 101", "refund "+a1+" 11 1", "endblock 102", "add "+a1+" 11 1", "endblock 103"),
+		"pkcache-keeps-discarded-block": append(pre("11"),
+			"apply "+a1+" 11 0 800 - 07 01", "endblock 101",
+			"refund "+a1+" 11 "+maxU64, "apply "+a1+" 11 0 800 - 09 01", "rewind", "endblock 102"),
+		"reader-panics-on-long-id": append(pre(strings.Repeat("33", 33)),
+			"apply "+a1+" "+strings.Repeat("33", 33)+" 0 400 - 01 01", "endblock 101"),
 		"refund-lost-second-account": append(pre("11,22"),
 			"apply "+a1+" 11 0 800 - 01 01", "apply "+a2+" 22 0 800 - 01 01", "endblock 101",
 			"refund "+a1+" 11 100", "refund "+a2+" 22 100", "endblock 102"),
@@ -551,6 +722,48 @@ func runSearch(out *hx.Out, r *hx.Rng, thorough bool) {
 			}
 		}
 	}
+	// deterministic small-scope family before the random episodes: every sequence of `depth` operations over a
+	// small alphabet (two ids, two accounts, boundary amounts), each followed by a block end
+	{
+		a1, a2 := a20(0xa1), a20(0xa2)
+		alphabet := []string{
+			"apply " + a1 + " 11 0 400 - 07 01", "apply " + a2 + " 22 1 2000 - 08 01", "apply " + a2 + " 11 1 2000 " + a1 + " 09 01",
+			"add " + a1 + " 11 1", "add " + a2 + " 11 400", "refund " + a1 + " 11 1", "refund " + a1 + " 11 " + maxU64,
+			"refund " + a2 + " 22 1", "chacc " + a1 + " 11 " + a2, "endblock +1",
+		}
+		depth := 3
+		if thorough {
+			depth = 4
+		}
+		idx := make([]int, depth)
+		for {
+			runS("config dev")
+			runS("reset 100")
+			runS("uni 11,22 " + a1 + "," + a2 + " " + a1 + "," + a2)
+			runS("bal " + a1 + " 100000" + e18)
+			runS("bal " + a2 + " 100000" + e18)
+			for _, i := range idx {
+				l := alphabet[i]
+				if l == "endblock +1" {
+					l = fmt.Sprintf("endblock %d", ip.w.height+1)
+				}
+				runS(l)
+			}
+			runS(fmt.Sprintf("endblock %d", ip.w.height+1))
+			k := depth - 1
+			for k >= 0 {
+				idx[k]++
+				if idx[k] < len(alphabet) {
+					break
+				}
+				idx[k] = 0
+				k--
+			}
+			if k < 0 {
+				break
+			}
+		}
+	}
 	episodes := 120
 	if thorough {
 		episodes = 1500
@@ -559,15 +772,6 @@ func runSearch(out *hx.Out, r *hx.Rng, thorough bool) {
 	st.m["searcher"] = 1
 	for e := 0; e < episodes; e++ {
 		genEpisode(r.Fork(), ip, runS, 10+r.Intn(25), st)
-	}
-	keys := make([]string, 0)
-	for k := range m.found {
-		keys = append(keys, k)
-	}
-	sort.Strings(keys)
-	for _, k := range keys {
-		b, _ := json.Marshal(m.found[k])
-		fmt.Println("VIOL " + string(b))
 	}
 	nks := make([]string, 0)
 	for k := range m.notes {
